@@ -26,7 +26,7 @@ META = {
     "claim": "for every base exchange, addon policy and schedule with at most k faults/reorderings, every HTTP flow's hook sequence obeys the lifecycle order and, once all connections are closed, has fired exactly one of response/error and is not live",
     "rule": "an execution is (base exchange, policy, suspension mode, choice sequence); distinct = distinct tuple; non-trivial = at least one fault/deviation or a non-pass policy",
     "assumptions": [
-        "HTTP/1 client and server sides (HTTP/2 stream lifecycles are exercised by C05/C11)",
+        "HTTP/1 client and server sides, plus an HTTP/2 client with 2-3 concurrent GET streams over HTTP/1 upstream connections (further HTTP/2 stream lifecycles are exercised by C05/C11)",
         "faults are socket-level (EOF, read error, connect refusal) and protocol errors in the byte streams of the base exchanges",
     ],
 }
@@ -293,6 +293,93 @@ class Exec:
             t.note("server logged: " + w.errors[0][:70])
 
 
+# HTTP/2 client, HTTP/1 upstream: several concurrent streams, which share one pending connection attempt (the
+# "HTTP/2 client, non-h2 upstream" branch of HttpLayer.register_connection) and then get one connection each
+H2_BASES = {"h2-2": 2, "h2-3": 3}
+R_SMALL = R_CL_H + b"abcdef"
+
+
+class H2Exec(Exec):
+    def h2_enabled(self, w: World, tosend):
+        acts = []
+        if tosend:
+            acts.append(("request",))  # default: all streams are opened before anything else happens
+        if w.suspended:
+            acts.append(("hook", 0))
+        if w.pending_connects():
+            acts.append(("connect_ok",))
+        tgt = None
+        for e in w.servers:
+            if e.state == "open" and not e.r.eof and not getattr(e, "answered", 0):
+                msgs, _ = http1ref.parse_requests(e.w.data)
+                if msgs:
+                    tgt = e
+                    acts.append(("respond",))
+                    break
+        if w.pending_connects():
+            acts.append(("connect_fail",))
+        if not w.client.r.eof:
+            acts.append(("client_eof",))
+        openers = [e for e in w.servers if e.state == "open" and not e.r.eof]
+        if openers:
+            acts.append(("server_eof",))
+        if len(w.suspended) > 1:
+            acts.append(("hook", 1))
+        if acts and acts[0][0] in ("connect_fail", "client_eof", "server_eof"):
+            return [], None
+        return acts, tgt
+
+    def run(self, prefix, t: Tally, verbose=False):
+        from vmc.drivers.h2world import H2World
+
+        hw = H2World(http_mode="regular", policy=make_policy(self.pol), suspend=make_suspend(self.susp), snap=h1.http_snap)
+        w = hw.w
+        tosend = [b"/s%d" % i for i in range(H2_BASES[self.base])]
+        choices, widths, costs, trace = [], [], [], []
+        try:
+            hw.start()
+            for _ in range(200):
+                acts, tgt = self.h2_enabled(w, tosend)
+                if not acts:
+                    break
+                if len(acts) > 1:
+                    k = prefix[len(choices)] if len(choices) < len(prefix) else 0
+                    if k >= len(acts):
+                        raise HarnessError("choice out of range while replaying %r" % (prefix,))
+                    choices.append(k)
+                    widths.append(len(acts))
+                    costs.append(1)
+                    a = acts[k]
+                else:
+                    a = acts[0]
+                trace.append(a)
+                if a[0] == "request":
+                    hw.request([(b":method", b"GET"), (b":scheme", b"http"), (b":authority", b"example.com"), (b":path", tosend.pop(0))], end=True)
+                elif a[0] == "respond":
+                    tgt.answered = 1
+                    w.server_send(tgt, R_SMALL)
+                elif a[0] == "server_eof":
+                    e = [e for e in w.servers if e.state == "open" and not e.r.eof][0]
+                    e.r.eof = True
+                    w.server_eof(e)
+                else:
+                    self.apply(w, a, None)
+                hw.sync()
+                t.transitions += 1
+                t.state([[n for n, _ in w.hooks], a, len(tosend)])
+            else:
+                raise HarnessError("schedule does not terminate")
+            closed = hw.close_out()
+            self.judge(w, closed, trace, choices, t, verbose)
+        finally:
+            hw.dispose()
+        return choices, widths, costs
+
+
+def _exec(base, pol, susp):
+    return (H2Exec if base in H2_BASES else Exec)(base, pol, susp)
+
+
 def _is_head(step):
     return step[0] == "s" and step[1].startswith(b"HTTP/")
 
@@ -302,6 +389,13 @@ def specs(tier):
     for base in BASES:
         for pol in POLICIES:
             for susp in SUSPEND:
+                if tier == "quick" and susp == "all" and pol[0] != "pass":
+                    continue
+                out.append((base, pol, susp))
+    # HTTP/2 client with concurrent streams over HTTP/1 upstream connections
+    for base in H2_BASES:
+        for pol in POLICIES:
+            for susp in ("none", "request", "all"):
                 if tier == "quick" and susp == "all" and pol[0] != "pass":
                     continue
                 out.append((base, pol, susp))
@@ -317,14 +411,14 @@ def specs(tier):
 def chunk_fn(args):
     t = Tally()
     for base, pol, susp, bound in args:
-        _dev_rec(Exec(base, pol, susp), (), 0, bound, t)
+        _dev_rec(_exec(base, pol, susp), (), 0, bound, t)
     return t
 
 
 def run(ctx):
     bound = ctx.pick(1, 2)
     sp = [s + (bound,) for s in specs(ctx.tier)]
-    ctx.bounds = {"bases": list(BASES), "policies": ["%s:%s" % p for p in POLICIES], "suspend_modes": SUSPEND, "deviation_bound": bound, "specs": len(sp)}
+    ctx.bounds = {"bases": list(BASES) + list(H2_BASES), "policies": ["%s:%s" % p for p in POLICIES], "suspend_modes": SUSPEND, "deviation_bound": bound, "specs": len(sp)}
     ctx.log("%d specs, deviation bound %d" % (len(sp), bound))
     # determinism self-test
     a = Exec("post", ("pass", None), "none").run((), Tally())
@@ -335,4 +429,4 @@ def run(ctx):
 
 
 def replay(case, t, verbose=False):
-    Exec(case["base"], tuple(case["pol"]), case["susp"]).run(tuple(case["choices"]), t, verbose=verbose)
+    _exec(case["base"], tuple(case["pol"]), case["susp"]).run(tuple(case["choices"]), t, verbose=verbose)
